@@ -71,7 +71,18 @@ func refVal(s string, t types.Type) Val   { return Val{K: KRef, T: t, S: s} }
 
 const float64Sort = "(_ FloatingPoint 11 53)"
 
+// isBigInt: the struct type math/big.Int (held by value).  It is modelled as the mathematical integer it denotes: one component,
+// and a cell of this type is the ghost array G.bigval that the assumed math/big contracts speak about (val(p)), so that
+// *p, a copy `v := *p`, a big.Int boxed in an interface and `&v` all carry the same number.
+func isBigInt(t types.Type) bool {
+	n, ok := t.(*types.Named)
+	return ok && n.Obj() != nil && n.Obj().Pkg() != nil && n.Obj().Pkg().Path() == "math/big" && n.Obj().Name() == "Int"
+}
+
 func kindOf(t types.Type) Kind {
+	if isBigInt(t) {
+		return KInt
+	}
 	switch u := t.Underlying().(type) {
 	case *types.Basic:
 		info := u.Info()
@@ -450,7 +461,8 @@ func (h *HArr) term() string {
 // PC item: either a plain formula or a quantified assumption that is instantiated at emission time.
 type PCItem struct {
 	F  string
-	QF *F // positive universally quantified formula (NNF), instantiated at emission time
+	QF *F   // positive universally quantified formula (NNF), instantiated at emission time
+	Br bool // a branch condition of the path (not an assumption taken from a contract, an invariant or a fact)
 }
 
 type Deferred struct {
@@ -595,6 +607,9 @@ func elemKey(et types.Type) string { return "E." + typeName(et) }
 
 // cells are keyed by the underlying type: *GasPool converted to *uint64 addresses the same memory
 func cellKey(t types.Type) string {
+	if isBigInt(t) {
+		return "G.bigval"
+	}
 	if _, isStruct := t.Underlying().(*types.Struct); isStruct {
 		return "C." + typeName(t)
 	}
